@@ -5,6 +5,7 @@ from .. import build, harness
 
 def run_rc_property(pid, hname, modes, tier, seed, per_quick, per_thorough, nproc=16, extra_jobs=(), known_excl=(), max_size=100,
                     exhaustive=False, note=None):
+    os.environ["VERIF_TIER_RUN"] = tier
     harness.ensure([hname])
     known = {e["id"]: e for e in harness.known_excludes(pid)}
     excl = ",".join(k for k in known if k in known_excl)
